@@ -251,6 +251,28 @@ func argTextD(v ssa.Value, d int, seen map[ssa.Value]bool) string {
 		return "closure"
 	case *ssa.UnOp:
 		if x.Op.String() == "*" {
+			// a local variable kept in memory (named result read by a deferred call, variable captured by
+			// a closure): the set of values the function stores into it, like a phi
+			if al, ok := x.X.(*ssa.Alloc); ok && al.Parent() != nil && !seen[al] {
+				elem := al.Type().Underlying().(*types.Pointer).Elem().Underlying()
+				_, isStruct := elem.(*types.Struct)
+				_, isArray := elem.(*types.Array)
+				if !isStruct && !isArray {
+					set := map[string]bool{}
+					seen[al] = true
+					for _, b := range al.Parent().Blocks {
+						for _, in := range b.Instrs {
+							if st, ok := in.(*ssa.Store); ok && st.Addr == ssa.Value(al) {
+								set[argTextD(st.Val, d+1, seen)] = true
+							}
+						}
+					}
+					delete(seen, al)
+					if len(set) > 0 {
+						return "var{" + strings.Join(sortedKeys(set), " | ") + "}"
+					}
+				}
+			}
 			return argTextD(x.X, d, seen)
 		}
 		if x.Op.String() == "!" {
@@ -381,6 +403,18 @@ func WiringRows(fn *ssa.Function, want func(callee string) bool) []string {
 			full := core.CalleeName(cc)
 			if cc.IsInvoke() {
 				full = shortType(cc.Value.Type()) + "." + name
+			}
+			if _, isBuiltin := cc.Value.(*ssa.Builtin); want == nil && !cc.IsInvoke() && cc.StaticCallee() == nil && !isBuiltin {
+				// a call through a function value (callback, subscriber, worker function): which value is
+				// called, with which arguments
+				if _, isClosure := cc.Value.(*ssa.MakeClosure); !isClosure {
+					var as []string
+					for _, a := range cc.Args {
+						as = append(as, argText(a))
+					}
+					out = append(out, "call "+argText(cc.Value)+"("+strings.Join(as, ", ")+")")
+					continue
+				}
 			}
 			if want != nil {
 				if !want(name) {
